@@ -366,7 +366,16 @@ fn set_slot<T>(v: &mut Vec<Option<T>>, i: usize, x: Option<T>) {
 fn ev_text(evs: &[Ev], sorted: bool) -> String {
     let mut v: Vec<&Ev> = evs.iter().collect();
     if sorted {
-        v.sort_by_key(|e| e.tok());
+        v.sort_by_key(|e| {
+            let rank = match e {
+                Ev::SzK(_) | Ev::SzV(_) => 0,
+                Ev::CloneK(..) | Ev::CloneV(..) => 1,
+                Ev::Pred(..) => 2,
+                Ev::Closure(_) => 3,
+                Ev::DropK(_) | Ev::DropV(_) => 4,
+            };
+            16 * e.tok() + rank
+        });
     }
     let items: Vec<String> = v.iter().map(|e| e.to_string()).collect();
     format!("[{}]", items.join(" "))
@@ -400,12 +409,17 @@ impl World {
             ret.text(),
             if panicked { "panic" } else { "ok" },
             log.hashes.len(),
-            ev_text(&log.events, sorted)
+            ev_text(&log.events, sorted || panicked)
         );
         if line.full {
-            let mut hs = log.hashes.clone();
-            hs.sort();
-            obs.push_str(&format!(" hs={}", list(hs.iter())));
+            if panicked {
+                // which keys a rebuild had re-hashed when the panic struck depends on the table order
+                obs.push_str(" hs=-");
+            } else {
+                let mut hs = log.hashes.clone();
+                hs.sort();
+                obs.push_str(&format!(" hs={}", list(hs.iter())));
+            }
         }
         let mut hints = String::new();
         if let Some(p) = &post {
@@ -414,6 +428,13 @@ impl World {
             if alloc_refused {
                 hints.push_str(" af");
             }
+        }
+        // a panicking `Eq` falls inside the lookup opened by the preceding `Hash` call
+        if let Some((Kind::Eq, _)) = log.panicked {
+            if hints.is_empty() {
+                hints.push_str(" | 0 0");
+            }
+            hints.push_str(&format!(" pk=hash:{}", count_of(&log, Kind::Hash)));
         }
         if let (Some(i), Some(p)) = (cidx, &post) {
             if p.walk_err.is_some() {
